@@ -281,7 +281,9 @@ def decorator_units(world):
                     parts = list(src.args) if isinstance(src, UTerm) and src.fn == "concat" else []
                     lit = "".join(x for x in parts if isinstance(x, str))
                     out.append(("compiled-as-defines-plus-case-insensitive-named-group", ["C19", "C11"],
-                                isinstance(comp, UTerm) and comp.fn == "regex.compile" and "(?i)(?P<R101>" in lit and lit.endswith(")")
+                                isinstance(comp, UTerm) and comp.fn == "regex.compile" and len(comp.args) == 2
+                                and getattr(comp.args[1], "name", None) == "regex.VERSION1"      # exactly this flag: no ASCII / LOCALE folding
+                                and "(?i)(?P<R101>" in lit and lit.endswith(")")
                                 and any(x is seen["pats"][0] for x in parts) and lit.startswith("(?(DEFINE)")))
             elif case == "seen":
                 out.append(("known-pattern-is-recycled-without-allocation", ["C19"],
